@@ -156,7 +156,7 @@ flip_enum = FlipEnum()
 @Pytree.dataclass
 class FlipMVD(ADEVPrimitive):
     def sample(self, key, *args):
-        p = (args,)
+        (p,) = args
         return 1 == tfd.Bernoulli(probs=p).sample(seed=key)
 
     def jvp_estimate(
@@ -167,12 +167,13 @@ class FlipMVD(ADEVPrimitive):
     ):
         (kpure, kdual) = konts
         (p_primal,) = Dual.tree_primal(dual_tree)
-        (p_tangent,) = Dual.tree_primal(dual_tree)
+        (p_tangent,) = Dual.tree_tangent(dual_tree)
         key, sub_key = jax.random.split(key)
         v = tfd.Bernoulli(probs=p_primal).sample(seed=sub_key)
         b = v == 1
-        b_primal, b_tangent = kdual(key, (b,), (jnp.zeros_like(b),))
-        other = kpure(key, jnp.logical_not(b))
+        b_dual = kdual(key, Dual(b, jnp.zeros_like(b)))
+        (b_primal,), (b_tangent,) = Dual.tree_unzip(b_dual)
+        (other,) = kpure(key, jnp.logical_not(b))
         est = ((-1) ** v) * (other - b_primal)
         return Dual(b_primal, b_tangent + est * p_tangent)
 
